@@ -271,6 +271,39 @@ def register(reg):
                            "implies(%s and %s, any(result[q_] == D0 for q_ in range(0, len(result))))" % (GHG.replace("track", "obj"), IN("D0", "A0", "B0")))]),
             variant="track")
 
+    # ---------------------------------------------------------------- segment query: request([coord1, coord2])
+    SGX = "((obj[0].E + S0 * (obj[1].E - obj[0].E) - self.xmin) / self.dX)"
+    SGY = "((obj[0].N + S0 * (obj[1].N - obj[0].N) - self.ymin) / self.dY)"
+    INCELL_S = ("((A0 <= %s and %s < A0 + 1) or (%s == self.csize and A0 == self.csize - 1)) and "
+                "((B0 <= %s and %s < B0 + 1) or (%s == self.lsize and B0 == self.lsize - 1))" % (SGX, SGX, SGX, SGY, SGY, SGY))
+    GHS = "(0 <= S0 and S0 <= 1 and 0 <= A0 and A0 < self.csize and 0 <= B0 and B0 < self.lsize and %s)" % INCELL_S
+    INSIDE_2 = ("len(obj) == 2 and all(not isnan(obj[r].E) and not isnan(obj[r].N) and self.xmin <= obj[r].E and obj[r].E <= self.xmax and "
+                "self.ymin <= obj[r].N and obj[r].N <= self.ymax for r in range(0, 2))")
+    reg.add(Spec(SI + "request", dict(self="SpatialIndex", obj="list[ENUCoords]"), "list[int]",
+                 ghost=dict(S0="real", A0="int", B0="int", D0="int"),
+                 requires=WF + GWF + EXACT + [INSIDE_2], locals=dict(TAB="list[int]"),
+                 at={"p2 = self.__getCell(coord2)": [
+                         "use div_cancel((obj[0].E - self.xmin) / self.dX, self.dX, obj[0].E - self.xmin, 1)",
+                         "use div_cancel((obj[1].E - self.xmin) / self.dX, self.dX, obj[1].E - self.xmin, 1)",
+                         "use div_cancel((obj[0].N - self.ymin) / self.dY, self.dY, obj[0].N - self.ymin, 1)",
+                         "use div_cancel((obj[1].N - self.ymin) / self.dY, self.dY, obj[1].N - self.ymin, 1)",
+                         "use div_cancel(%s, self.dX, obj[0].E + S0 * (obj[1].E - obj[0].E) - self.xmin, 1)" % SGX,
+                         "use div_cancel(%s, self.dY, obj[0].N + S0 * (obj[1].N - obj[0].N) - self.ymin, 1)" % SGY,
+                         ("first-end-in-grid-units", "p1 is not None and p1[0] * self.dX == obj[0].E - self.xmin and p1[1] * self.dY == obj[0].N - self.ymin"),
+                         ("second-end-in-grid-units", "p2 is not None and p2[0] * self.dX == obj[1].E - self.xmin and p2[1] * self.dY == obj[1].N - self.ymin"),
+                         "use distrib(p1[0] + S0 * (p2[0] - p1[0]), %s, self.dX)" % SGX,
+                         "use distrib(p1[1] + S0 * (p2[1] - p1[1]), %s, self.dY)" % SGY,
+                         ("same-point-in-grid-units-x", "(p1[0] + S0 * (p2[0] - p1[0])) * self.dX == %s * self.dX" % SGX),
+                         ("same-point-in-grid-units-y", "(p1[1] + S0 * (p2[1] - p1[1])) * self.dY == %s * self.dY" % SGY),
+                         "use mul_cancel(self.dX, p1[0] + S0 * (p2[0] - p1[0]), %s)" % SGX,
+                         "use mul_cancel(self.dY, p1[1] + S0 * (p2[1] - p1[1]), %s)" % SGY,
+                         ("affine-map-commutes-with-interpolation", "p1[0] + S0 * (p2[0] - p1[0]) == %s and p1[1] + S0 * (p2[1] - p1[1]) == %s" % (SGX, SGY))]},
+                 loops={"1": LoopSpec(inv=["implies(any(CELLS[q] == (A0, B0) for q in range(0, _k)) and %s, %s)" % (IN("D0", "A0", "B0"), INTAB % "D0")])},
+                 ghost_calls={"_SpatialIndex__cellsCrossSegment": {"A0": "A0", "B0": "B0", "S0": "S0"}},
+                 ensures=[("every-datum-of-the-cell-of-every-point-of-the-segment-is-returned",
+                           "implies(%s and %s, any(result[q_] == D0 for q_ in range(0, len(result))))" % (GHS, IN("D0", "A0", "B0")))]),
+            variant="segment")
+
     # ---------------------------------------------------------------- neighbourhood query (unit given)
     NEAR = "(0 <= A0 and A0 < self.csize and 0 <= B0 and B0 < self.lsize and %s - unit <= A0 and A0 <= %s + unit and %s - unit <= B0 and B0 <= %s + unit)"
     FALSE_LOOPS = {k: LoopSpec(inv=["False"]) for k in ("2", "2.1", "3", "3.1", "4", "4.1", "4.2", "4.2.1", "5", "5.1")}
@@ -316,7 +349,7 @@ def lemmas(reg):
 
 
 USES_LIB = True
-FUNCTIONS = [G + "isSegmentIntersects", SI + "_SpatialIndex__cellsCrossSegment", SI + "neighborhood", SI + "neighborhood@coord", SI + "_SpatialIndex__addSegment", SI + "request", SI + "request@coord", SI + "request@track",
+FUNCTIONS = [G + "isSegmentIntersects", SI + "_SpatialIndex__cellsCrossSegment", SI + "neighborhood", SI + "neighborhood@coord", SI + "_SpatialIndex__addSegment", SI + "request", SI + "request@coord", SI + "request@track", SI + "request@segment",
              SI + "addFeature", SI + "groundDistanceToUnits", SI + "_SpatialIndex__getCell", SI + "_SpatialIndex__neighboringcells"]
 ASSUMPTIONS = ["grid geometry: dX, dY > 0, at least one cell per axis, positive extent",
                "request(track): the query track lies inside the indexed extent; __addCellValuesInTAB is inlined and its in-place append is written "
